@@ -9,6 +9,7 @@ psutil/_psutil_*.c) -- not derived from the Python *_map dicts.
 
 import errno
 import ntpath
+import socket
 import posixpath
 import types
 
@@ -483,10 +484,15 @@ class Foreign(EngineBase):
                     files[d + "/fd/0"] = "x"
                     files[d + "/fd/1"] = "x"
                     files[d + "/lwp/1/lwpsinfo"] = "x"
+                    files[d + "/lwp/2/lwpsinfo"] = "x"
+                    files[d + "/lwp/3/lwpsinfo"] = "x"
             files["/bin/x"] = {"t": "f", "data": "x", "mode": 0o755}
         return {"procs": procs, "files": files, "procfs_flavor": "static",
                 "self_pid": 1000, "if_addrs": [
                     ["eth0", 2, "10.0.0.5", "255.255.255.0", None, None],
+                    # multi-homed: same netmask, another network
+                    ["eth0", 2, "192.168.7.9", "255.255.255.0", None, None],
+                    ["eth1", 2, "172.16.200.3", "255.255.0.0", None, None],
                     # the Windows native layer reports no netmask for IPv6
                     ["eth0", 10, "fe80::1", None if platform == "win32"
                      else "ffff:ffff:ffff:ffff::", None, None],
@@ -677,6 +683,16 @@ class Foreign(EngineBase):
                 V("C20.no_bare", ftags + [type(e).__name__], "%s raised %r"
                   % (method, e))
         else:
+            if state_end == "absent" and method not in (
+                    "is_running", "wait0") and any(
+                    self.fault_class(platform, f) == "nsp" and
+                    f.get("then") == "absent" for f in fired):
+                # the native layer said "no such process" and the process
+                # is gone for good: a value (e.g. a truncated list) hides it
+                V("C20.no_bare", ftags + ["swallowed", "absent"],
+                  "%s returned %r although a native call failed with 'no "
+                  "such process' and the process is gone" % (
+                      method, out[1]))
             if not faults and plan["state"] == "live" and \
                     plan["pidkind"] == "ordinary":
                 exp = expected_layout(stub, k, platform, method)
@@ -765,16 +781,20 @@ class Foreign(EngineBase):
             return res
         k.end_op()
         sep = "-" if platform == "win32" else ":"
-        for nt in addrs.get("eth0", []):
+        for nt in addrs.get("eth0", []) + addrs.get("eth1", []):
             if nt.family == psutil.AF_LINK:
                 if nt.address.count(sep) != 5:
                     V("C20.frontend", ["mac_padding"], "MAC %r not padded "
                       "to six groups" % (nt.address,))
-            elif platform == "win32" and nt.netmask:
-                if nt.address == "10.0.0.5" and nt.broadcast != "10.0.0.255":
+            elif platform == "win32" and nt.netmask and \
+                    nt.family == socket.AF_INET:
+                import ipaddress
+                exp = str(ipaddress.IPv4Network("%s/%s" % (
+                    nt.address, nt.netmask), strict=False).broadcast_address)
+                if nt.broadcast != exp:
                     V("C20.frontend", ["win_broadcast", "ipv4"],
-                      "10.0.0.5/255.255.255.0 -> broadcast %r, expected "
-                      "'10.0.0.255'" % (nt.broadcast,))
+                      "%s/%s -> broadcast %r, expected %r" % (
+                          nt.address, nt.netmask, nt.broadcast, exp))
 
         # documented names
         want = ["cpu_count", "cpu_times", "virtual_memory", "Process",
